@@ -167,7 +167,11 @@ func classifyDiff(e *Env, t Ty, v *V, got, want string) string {
 }
 
 func Run(cfg Config) *hx.Result {
-	r := hx.NewResult(cfg.Prop, cfg.Module, cfg.Seed, cfg.Tier)
+	resProp := cfg.Prop
+	if resProp == "C10G" {
+		resProp = "C10"
+	}
+	r := hx.NewResult(resProp, cfg.Module, cfg.Seed, cfg.Tier)
 	if !gen.Generated {
 		r.Rule = "generated bindings missing"
 		r.OracleFail(hx.Case{Sig: "harness built without generated bindings", Op: "-", Impl: "-"})
@@ -192,6 +196,8 @@ func Run(cfg Config) *hx.Result {
 		x.runC11()
 	case "C13":
 		x.runC13()
+	case "C10G":
+		x.runC10Gen()
 	}
 	return r
 }
